@@ -21,7 +21,15 @@ fn main() {
         match c31::run_plan(&plan, true) {
             Ok((s, log)) => {
                 println!("scratch kept at {}", s.path.display());
-                println!("{}", serde_json::to_string_pretty(&log).unwrap());
+                if std::env::var_os("C31_SHOW_LOG").is_some() {
+                    println!("{}", serde_json::to_string_pretty(&log).unwrap());
+                }
+                let base = s.path.join("u").to_string_lossy().to_string();
+                let (fails, classes, nt) = c31::decide_for_dev(&plan, &base, &log);
+                println!("non-trivial: {nt}\nclasses: {classes:#?}");
+                for (sig, msg) in fails {
+                    println!("DISAGREEMENT [{sig}]\n{msg}\n");
+                }
             }
             Err(e) => println!("error: {e}"),
         }
